@@ -72,6 +72,9 @@ func etFamily(et int) string {
 func settingsClass(st world.ServiceSettings) string {
 	var p []string
 	p = append(p, fmt.Sprintf("skew=%d", st.SkewS))
+	if st.SkewMs != 0 {
+		p = append(p, fmt.Sprintf("skew_ms=%d", st.SkewMs))
+	}
 	if st.RequireAddr {
 		p = append(p, "reqaddr")
 	}
@@ -97,7 +100,7 @@ func run(tapeJSON json.RawMessage, res *core.Result) {
 		res.Verdict, res.Harness = "invalid", "shape"
 		return
 	}
-	if tp.Settings.SkewS < 0 || tp.Settings.SkewS > 86400 {
+	if tp.Settings.SkewS < 0 || tp.Settings.SkewS > 86400 || tp.Settings.SkewMs < 0 || tp.Settings.SkewMs > 999 {
 		res.Verdict, res.Harness = "invalid", "skew"
 		return
 	}
@@ -110,7 +113,7 @@ func run(tapeJSON json.RawMessage, res *core.Result) {
 		return
 	}
 	opts := []func(*service.Settings){service.DecodePAC(st.DecodePAC)}
-	if st.SkewS != 0 {
+	if st.SkewS != 0 || st.SkewMs != 0 {
 		opts = append(opts, service.MaxClockSkew(skew))
 	}
 	if st.RequireAddr {
